@@ -1747,7 +1747,7 @@ func probeHooks(t *testing.T) bool {
 
 func body(t *testing.T, a vh.Args) {
 	res := vh.NewResult("C11", a.Seed, a.Tier)
-	res.Rule = "router: operation lists (launch ReceiveFrom / hand one message to the reader / cancel / release a held receiver / Close / delivery failure / garbage) run against pkg/network.Router over a checker-controlled Delivery inside a testing/synctest bubble (quiescence after every operation), replayed in the extracted model; compared: for every ReceiveFrom the operation after which it returned and its result (payload per sender as hex | error class | blamed id | still parked). Systematic: all arrival orders x receive placement x cancellation placement for k<=3 senders with identical/conflicting retransmission, other-id, other-namespace, non-member extras; held-receiver windows; random long schedules; buffer bound. Echo: echo.ExchangeEchoBroadcast over real routers with a two-faced broadcaster, delivery order and duplication drawn from the seed, compared with coq/model/Echo.v and with the real echo.Participant rounds driven directly (runner vs round by round). Runner family: session setup, Gennaro DKG, Lindell22 (BIP-340) and DKLs23/bbot signing run by their real runners (exchange + echo broadcast) over real routers on the checker-controlled Delivery, 3 parties, under in-order / random / duplicating / link-starving delivery and two concurrent instances in different namespaces, each party's output compared with the round-by-round drive (harness/internal/drive) of the same protocol on the same tapes; with a conflicting retransmission or an equivocated echo round-1 payload from one party the honest parties must abort (blaming nobody else) or agree. Non-trivial = some receive returned payloads or a blamed conflict."
+	res.Rule = "router: operation lists (launch ReceiveFrom / hand one message to the reader / cancel / release a held receiver / Close / delivery failure / garbage) run against pkg/network.Router over a checker-controlled Delivery inside a testing/synctest bubble (quiescence after every operation), replayed in the extracted model; compared: for every ReceiveFrom the operation after which it returned and its result (payload per sender as hex | error class | blamed id | still parked). Systematic: all arrival orders x receive placement x cancellation placement for k<=3 senders with identical/conflicting retransmission, other-id, other-namespace, non-member extras; held-receiver windows; random long schedules; buffer bound. Echo: echo.ExchangeEchoBroadcast over real routers with a two-faced broadcaster, delivery order and duplication drawn from the seed, compared with coq/model/Echo.v and with the real echo.Participant rounds driven directly (runner vs round by round). Runner family: session setup, Gennaro DKG, Lindell22 (BIP-340) and DKLs23/bbot signing run by their real runners (exchange + echo broadcast) over real routers on the checker-controlled Delivery, 3 parties, under in-order / random / duplicating / link-starving delivery and two concurrent instances in different namespaces, each party's output compared with the round-by-round drive (harness/internal/drive) of the same protocol on the same tapes; with a conflicting retransmission, an altered echo round-1 payload, or a two-faced party (the protocol run twice on different tapes, one run heard by one victim, the other by everybody else) the honest parties must abort (blaming nobody else) or agree. Non-trivial = some receive returned payloads or a blamed conflict."
 	defer func() {
 		res.Write(a.Out)
 	}()
